@@ -109,16 +109,17 @@ func (b *Bucket) record(op Op) {
 
 // Handle is one instance's connection to the bucket.
 type Handle struct {
-	b    *Bucket
-	inst string
+	ignoreCtx bool
+	b         *Bucket
+	inst      string
 
 	mu sync.Mutex
 	// plan: per operation kind a queue of fault kinds, consumed one per call; empty = ok
 	plan map[string][]string
 	// view: names hidden from this handle's List/Load (lets the harness hold snapshots back)
-	hidden   map[string]bool
-	hideAll  bool
-	visible  map[string]bool // exceptions to hideAll
+	hidden  map[string]bool
+	hideAll bool
+	visible map[string]bool // exceptions to hideAll
 }
 
 var _ simpleblob.Interface = (*Handle)(nil)
@@ -176,6 +177,24 @@ func (h *Handle) sees(name string) bool {
 	return true
 }
 
+// IgnoreContext makes the handle behave like the fs and memory backends of simpleblob, which do not look
+// at the context at all (the default behaves like the S3 backend: a cancelled context fails the call).
+func (h *Handle) IgnoreContext(v bool) {
+	h.mu.Lock()
+	defer h.mu.Unlock()
+	h.ignoreCtx = v
+}
+
+func (h *Handle) ctxErr(ctx context.Context) error {
+	h.mu.Lock()
+	ign := h.ignoreCtx
+	h.mu.Unlock()
+	if ign {
+		return nil
+	}
+	return ctx.Err()
+}
+
 func (h *Handle) next(kind string) string {
 	h.mu.Lock()
 	defer h.mu.Unlock()
@@ -189,7 +208,7 @@ func (h *Handle) next(kind string) string {
 }
 
 func (h *Handle) List(ctx context.Context, prefix string) (simpleblob.BlobList, error) {
-	if err := ctx.Err(); err != nil {
+	if err := h.ctxErr(ctx); err != nil {
 		return nil, err
 	}
 	f := h.next("list")
@@ -213,7 +232,7 @@ func (h *Handle) List(ctx context.Context, prefix string) (simpleblob.BlobList, 
 }
 
 func (h *Handle) Load(ctx context.Context, name string) ([]byte, error) {
-	if err := ctx.Err(); err != nil {
+	if err := h.ctxErr(ctx); err != nil {
 		return nil, err
 	}
 	f := h.next("load")
@@ -240,7 +259,7 @@ func (h *Handle) Load(ctx context.Context, name string) ([]byte, error) {
 }
 
 func (h *Handle) Store(ctx context.Context, name string, data []byte) error {
-	if err := ctx.Err(); err != nil {
+	if err := h.ctxErr(ctx); err != nil {
 		return err
 	}
 	f := h.next("store")
@@ -260,7 +279,7 @@ func (h *Handle) Store(ctx context.Context, name string, data []byte) error {
 }
 
 func (h *Handle) Delete(ctx context.Context, name string) error {
-	if err := ctx.Err(); err != nil {
+	if err := h.ctxErr(ctx); err != nil {
 		return err
 	}
 	f := h.next("delete")
